@@ -268,7 +268,9 @@ impl LineIndex {
             return None;
         }
 
-        let offset = self.line_start(line)? + column - 1;
+        // `column >= 1` here. Checked: a column near `usize::MAX` must be
+        // rejected as past-the-end, not wrap around to a small in-bounds offset.
+        let offset = self.line_start(line)?.checked_add(column - 1)?;
         if offset < self.text_len {
             Some(offset)
         } else {
